@@ -155,6 +155,17 @@ func init() {
 			}
 		}})
 
+	register(Suite{Name: "c14-scram-restarts", Property: "C14",
+		Rule: "SCRAM exchanges that are restarted on ONE Auth object (second empty challenge), with a server that keeps its salt but changes its iteration count, and with replays of an abandoned exchange's signature: the client proof of every client-final is checked like an RFC 5802 verifier would (harness PBKDF2/HMAC) and the exchange is compared with the Lean SCRAM state machine; SCRAM-SHA-1 and SCRAM-SHA-256",
+		Run: func(c *Ctx) {
+			c.rep.Exhaustive = true
+			for _, mech := range []string{"SCRAM-SHA-256", "SCRAM-SHA-1"} {
+				for _, seq := range scramRestartSeqs {
+					runScramSequence(c, mech, seq)
+				}
+			}
+		}})
+
 	register(Suite{Name: "c15-scram", Property: "C15",
 		Rule: "every server message sequence up to length 5 over the alphabet {valid server-first, server-first with foreign nonce, with truncated nonce, malformed server-first, valid server-final, server-final for another key, server-final computed over empty state, empty challenge, junk, 235, 535} (exhaustive, quick: lengths up to 3) for SCRAM-SHA-1 and SCRAM-SHA-256; success of DialWithContext is compared with 'the valid server-final for this exchange was presented after a nonce-extending server-first'; traces compared with the Lean SCRAM state machine",
 		Run: func(c *Ctx) {
@@ -182,9 +193,11 @@ func init() {
 				}
 			}
 			gen(nil)
+			// restarts on one Auth object (both tiers)
+			seqs = append(seqs, scramRestartSeqs...)
 			for _, mech := range []string{"SCRAM-SHA-256", "SCRAM-SHA-1"} {
 				for _, seq := range seqs {
-					if !c.Thorough() && mech == "SCRAM-SHA-1" && len(seq) > 2 {
+					if !c.Thorough() && mech == "SCRAM-SHA-1" && len(seq) == 3 {
 						continue
 					}
 					runScramSequence(c, mech, seq)
@@ -323,4 +336,16 @@ func stockLoggerRun(c *Ctx, mech string, json bool) {
 	if err == nil && !bytes.Contains(out, []byte("RSET")) {
 		c.Violate("c16-window-not-closed", "stock logger: RSET after AUTH is not logged verbatim", sc)
 	}
+}
+
+// restarts on one Auth object (a second empty challenge): replays of an abandoned exchange's
+// signature, and a server that changes its iteration count but not its salt
+var scramRestartSeqs = [][]string{
+	{"empty", "first", "empty", "final-stale"}, {"empty", "first", "empty", "final-stale", "235"},
+	{"empty", "first", "final", "empty", "final-stale", "235"}, {"empty", "first", "final", "empty", "final", "235"},
+	{"empty", "first", "empty", "first", "final", "235"}, {"empty", "first", "empty", "first-iter2", "final", "235"},
+	{"empty", "first-iter2", "empty", "first", "final", "235"}, {"empty", "first", "final", "empty", "first-iter2", "final", "235"},
+	{"empty", "first", "empty", "first-iter2", "final-stale", "235"}, {"empty", "first-iter2", "final", "235"},
+	{"empty", "first", "first-iter2", "final", "235"}, {"empty", "first", "empty", "junk"}, {"empty", "first", "empty", "first", "final-stale"},
+	{"empty", "first", "empty", "first-iter2", "empty", "first", "final", "235"},
 }
